@@ -75,6 +75,8 @@ type Case struct {
 	MayReject  bool     `json:"may_reject"`         // the layout may legitimately be rejected
 	PathShapes []string `json:"path_shapes"`        // labels of the plugin path shapes used (bookkeeping)
 	Contents   []string `json:"contents,omitempty"` // labels of the contents of colliding plugin files (bookkeeping)
+	Layout     string   `json:"layout,omitempty"`   // name of the layout (bookkeeping)
+	Recased    []string `json:"recased,omitempty"`  // labels of the letter-case variations applied to the layout (bookkeeping)
 	// Unwritable: a plugin path names the output dir itself or needs a file
 	// where a directory is (write-phase failure; beyond the literal statement,
 	// only used by the optional unwritable-path probe)
@@ -301,7 +303,9 @@ func predict(c Case, sb string) Expect {
 				}
 				continue
 			}
-			if prev, taken := owner[dest]; taken && prev != p.Name {
+			// owners are plugin processes (fplab.Plugin.ID), not plugin names:
+			// two instances of one plugin are two sources
+			if prev, taken := owner[dest]; taken && prev != p.ID() {
 				kind := "literal"
 				if spelled[dest] != raw {
 					kind = "uncleaned"
@@ -309,6 +313,8 @@ func predict(c Case, sb string) Expect {
 				with := "plugins"
 				if prev == "core" {
 					with = "core"
+				} else if strings.Split(prev, "@")[0] == p.Name {
+					with = "instances-of-one-plugin"
 				}
 				// the contents do not matter to the statement; they are
 				// told apart in the classifier only
@@ -319,7 +325,7 @@ func predict(c Case, sb string) Expect {
 				case prev == "core" && mine == CoreOff:
 					cont = "one byte off"
 				}
-				e.Conflicts = append(e.Conflicts, fmt.Sprintf("%s's %q and %s's %q both mean %q (%s contents)", prev, spelled[dest], p.Name, raw, dest, cont))
+				e.Conflicts = append(e.Conflicts, fmt.Sprintf("%s's %q and %s's %q both mean %q (%s contents)", prev, spelled[dest], p.ID(), raw, dest, cont))
 				if e.ConfKey == "" {
 					e.ConfKey = kind + "-path-not-reported/" + with
 					if cont == "identical" {
@@ -328,7 +334,7 @@ func predict(c Case, sb string) Expect {
 				}
 				continue
 			}
-			owner[dest], spelled[dest] = p.Name, raw
+			owner[dest], spelled[dest] = p.ID(), raw
 			e.Plugin[dest] = p.Script.Generate.Files[raw]
 			e.Source[dest] = Source{Plugin: i, Raw: raw}
 		}
@@ -615,6 +621,10 @@ func checkCase(c Case) (*Result, error) {
 	if err != nil {
 		return nil, envError{err}
 	}
+	if r.Obs.TimedOut && r.Obs.Quiescent {
+		// blocked for good, not slow (see fplab.Obs): no second run needed
+		return r, ev.Errf("host/hang", "thriftrw did not finish: after %.0f s nothing moved any more (every thread of the host and of its plugins asleep for 5 s, no CPU time used): %s", r.Obs.Wall.Seconds(), r.Obs.Blocked)
+	}
 	if r.Obs.TimedOut {
 		hostTimeout = 240 * time.Second
 		r, err = runOnce(c)
@@ -741,7 +751,7 @@ func pluginPaths(c Case) []string {
 	var out []string
 	for _, p := range c.Plugins {
 		for _, k := range keys(p.Script.Generate.Files) {
-			out = append(out, p.Name+":"+k)
+			out = append(out, p.ID()+":"+k)
 		}
 	}
 	return out
@@ -785,6 +795,21 @@ func runCase(t ev.TB, unit string, c Case) {
 	}
 	for _, s := range c.PathShapes {
 		cls = append(cls, "path:"+s)
+	}
+	names := map[string]int{}
+	for _, p := range c.Plugins {
+		names[p.Name]++
+	}
+	for _, n := range names {
+		if n > 1 {
+			cls = append(cls, fmt.Sprintf("instances-of-one-plugin:%d", n))
+		}
+	}
+	for _, s := range c.Recased {
+		cls = append(cls, "layout:"+s)
+	}
+	if c.Layout != "" {
+		cls = append(cls, "layout-name:"+c.Layout)
 	}
 	for _, s := range c.Contents {
 		cls = append(cls, "contents:"+s)
